@@ -88,7 +88,13 @@ def check(cx):
         cx.verdict(not extra, r1, "no-unclassified-token", f.where(), "all %d tokens classified" % len(table),
                    "tokens %s have a binding power but no SQL precedence class in the reference" % sorted(extra))
     # the loop comparator
-    fb = cx.guard(r1, "parse_expr_bp", p.method, PARSER, "parse_expr_bp")
+    # the Pratt loop = the Parser method that calls infix_binding_power inside a loop
+    ibp = p.method(PARSER, "infix_binding_power").id
+    loops = [g for g in p.fns.values() if g.impl_adt == PARSER and any(
+        c.callee == ibp and any(c.bb in body for _, body in core.natural_loops(g)) for c in g.calls())]
+    fb = loops[0] if len(loops) == 1 else None
+    if fb is None:
+        cx.bad(r1, "loop-break:anchor-missing", "", "expected exactly one Parser method calling infix_binding_power in a loop, found %d" % len(loops))
     if fb:
         cmps = [(bi, s) for bi, b in enumerate(fb.blocks) for s in b["stmts"]
                 if s["rv"].get("r") == "bin" and s["rv"]["op"] in ("Lt", "Le", "Gt", "Ge")]
